@@ -312,7 +312,102 @@ def rule_no_sign_precondition(ctx: Ctx) -> None:
         raise AnalysisError("convert.no-sign-precondition: conversion functions not found")
 
 
+def rule_phase_correction_always(ctx: Ctx) -> None:
+    """flow.phase-correction: state_to_graph turns a stabilizer state into a graph with H / P_dag gates (_graph_finder) and then appends the Z
+    gates that make the *signs* of the transformed generators those of the ideal graph state (_phase_correction).  The conjugations and the
+    generator products of the reduction create minus signs even when the input has none, so the correction belongs on every path that
+    went through _graph_finder: no return between the two, the call not under a condition, and its result part of the returned list."""
+    repo = ctx.repo
+    rel = "graphiq/backends/state_rep_conversion.py"
+    m = repo.module(rel)
+    fn = repo.anchor(rel, "state_to_graph")
+    ctx.touch(m, fn)
+    top = list(fn.body)
+    ig = [i for i, st in enumerate(top) if any(isinstance(c, ast.Call) and call_name(c) == "_graph_finder" for c in ast.walk(st))]
+    ip = [i for i, st in enumerate(top) if isinstance(st, (ast.Assign, ast.AugAssign, ast.Expr)) and any(isinstance(c, ast.Call) and call_name(c) == "_phase_correction" for c in ast.walk(st))]
+    anyp = [c for c in ast.walk(fn) if isinstance(c, ast.Call) and call_name(c) == "_phase_correction"]
+    if not ig:
+        raise AnalysisError("state_to_graph: the _graph_finder step was not found at the top level")
+    if not anyp:
+        ctx.fail("flow.phase-correction", m, fn, "state_to_graph no longer applies _phase_correction: the returned gates map the state onto the graph state only up to signs",
+                 func="state_to_graph", construct="state_to_graph: no phase correction")
+        return
+    if not ip or ip[0] < ig[0]:
+        ctx.fail("flow.phase-correction", m, anyp[0], f"state_to_graph applies `{short(anyp[0])}` under a condition: the reduction creates minus signs whatever the input's signs were, "
+                                                      f"so the correction is needed on every path through _graph_finder", func="state_to_graph",
+                 construct="state_to_graph: phase correction conditional")
+        return
+    early = [r for st in top[ig[0]:ip[0]] for r in ast.walk(st) if isinstance(r, ast.Return)]
+    if early:
+        g = parent(early[0])
+        cond = short(g.test, 60) if isinstance(g, ast.If) else "an earlier branch"
+        ctx.fail("flow.phase-correction", m, early[0],
+                 f"state_to_graph returns under `{cond}` after _graph_finder and before _phase_correction: the H / P_dag conjugations and the generator products of "
+                 f"the reduction create minus signs even for an input without any, so the gates returned on this path reach a Z-shifted state orthogonal to the graph state",
+                 func="state_to_graph", construct="state_to_graph: return before the phase correction")
+        return
+    # the correction ends up in the returned gate list
+    pc = top[ip[0]]
+    name = norm(pc.targets[0]) if isinstance(pc, ast.Assign) else None
+    used = name is None or any(isinstance(x, ast.Name) and x.id == name for st in top[ip[0] + 1:] for x in ast.walk(st))
+    if used:
+        ctx.ok("flow.phase-correction", m, pc, what="phase correction on every path through _graph_finder")
+    else:
+        ctx.fail("flow.phase-correction", m, pc, f"the result of _phase_correction (`{name}`) is never added to the returned gate list", func="state_to_graph",
+                 construct="state_to_graph: phase correction dropped")
+
+
+def rule_zero_outcome_guard(ctx: Ctx) -> None:
+    """guard.zero-probability: project_and_remove projects the other qubits on |0..0> and falls back to the complementary projector only when
+    that outcome is *impossible*.  For a graph state the outcome has probability 2^-(n-2), i.e. arbitrarily small and still possible, so the
+    guard has to be a comparison with zero (exactly, or np.isclose with a tolerance at rounding level), never a threshold such as 1e-2:
+    with it every state on nine or more qubits takes the wrong projector and the conversion loses edges."""
+    repo = ctx.repo
+    rel = "graphiq/backends/density_matrix/functions.py"
+    m = repo.module(rel)
+    fn = repo.anchor(rel, "project_and_remove")
+    ctx.touch(m, fn)
+    guards = [i for i in ast.walk(fn) if isinstance(i, ast.If) and "trace" in norm(i.test) and any(isinstance(a, ast.Assign) and "projector1" in norm(a) for a in ast.walk(i))]
+    if len(guards) != 1:
+        raise AnalysisError("project_and_remove: the impossible-outcome guard was not found")
+    t = guards[0].test
+
+    def const(e):
+        if isinstance(e, ast.Constant) and isinstance(e.value, (int, float)):
+            return float(e.value)
+        if isinstance(e, ast.UnaryOp) and isinstance(e.op, ast.USub) and isinstance(e.operand, ast.Constant):
+            return -float(e.operand.value)
+        return None
+    verdict = None
+    if isinstance(t, ast.Compare) and len(t.ops) == 1:
+        c = const(t.comparators[0])
+        cl = const(t.left)
+        op = t.ops[0]
+        if isinstance(op, ast.Eq) and 0.0 in (c, cl):
+            verdict = True
+        elif isinstance(op, (ast.Lt, ast.LtE)) and c is not None:
+            verdict = c <= 1e-9
+        elif isinstance(op, (ast.Gt, ast.GtE)) and cl is not None:
+            verdict = cl <= 1e-9
+    elif isinstance(t, ast.Call) and call_name(t) in ("np.isclose", "np.allclose", "math.isclose"):
+        tol = [const(k.value) for k in t.keywords if k.arg in ("atol", "abs_tol")]
+        zero = len(t.args) >= 2 and 0.0 in (const(t.args[0]), const(t.args[1]))
+        if zero:
+            verdict = all(v is not None and v <= 1e-8 for v in tol)
+    if verdict is None:
+        raise AnalysisError(f"project_and_remove: guard `{short(t)}` not classified")
+    if verdict:
+        ctx.ok("guard.zero-probability", m, guards[0], what="complementary projector only for an impossible outcome")
+    else:
+        ctx.fail("guard.zero-probability", m, guards[0],
+                 f"project_and_remove switches to the complementary projector when `{short(t)}`: the all-zeros outcome on the other qubits of an n-qubit graph state has "
+                 f"probability 2^-(n-2), which is below that threshold from nine qubits on although the outcome is possible — density-matrix to graph / stabilizer "
+                 f"conversions then lose edges", func="project_and_remove", construct="project_and_remove: possible outcome treated as impossible")
+
+
 def run(ctx: Ctx) -> None:
+    rule_zero_outcome_guard(ctx)
+    rule_phase_correction_always(ctx)
     rule_no_sign_precondition(ctx)
     rule_inverse_side(ctx)
     rule_graph_from_matrix(ctx)
@@ -463,6 +558,8 @@ def _filtered_positions(src: str) -> str:
 
 
 KNOCKOUTS = [
+    Knockout("project-and-remove-threshold", "graphiq/backends/density_matrix/functions.py", sub_once("    if np.trace(new_rho) == 0:\n        projector1", "    if np.real(np.trace(new_rho)) < 1e-2:\n        projector1"), "guard.zero-probability", "2^-(n-2)"),
+    Knockout("state-to-graph-skips-phase-correction-for-unsigned-input", "graphiq/backends/state_rep_conversion.py", sub_once("    # phase correction; adding Z gates at the end", "    if not np.any(tab.phase):\n        return graph, tab, gate_list\n    # phase correction; adding Z gates at the end"), "flow.phase-correction", "before _phase_correction"),
     Knockout("density-to-graph-from-edge-list", "graphiq/state.py", sub_once("            new_rep = Graph(nx.from_numpy_array(new_data))\n", "            rows, cols = np.nonzero(np.triu(new_data))\n            new_rep = Graph(nx.Graph(list(zip(rows.tolist(), cols.tolist()))))\n"), "graph.from-matrix", "edge list"),
     Knockout("graph-finder-inverts-untransposed-block", SRC, sub_once("    x_inv = (np.rint(np.linalg.det(x_mat.T) * np.linalg.inv(x_mat.T)) % 2).astype(int)\n", "    x_inv = (np.rint(np.linalg.det(x_mat) * np.linalg.inv(x_mat)) % 2).astype(int)\n"), "conv.inverse-side", "mismatched sides"),
     Knockout("graph-conversion-refuses-negative-signs", SRC, sub_once("        tableau = input_stabilizer\n        graph = _graph_finder(tableau.x_matrix, tableau.z_matrix)\n", "        tableau = input_stabilizer\n        assert not np.any(tableau.phase), \"Input stabilizer is not a graph state.\"\n        graph = _graph_finder(tableau.x_matrix, tableau.z_matrix)\n"), "convert.no-sign-precondition", "precondition on signs"),
